@@ -12,6 +12,7 @@ import (
 	"bufio"
 	"bytes"
 	"context"
+	"errors"
 	"fmt"
 	"io"
 	"log"
@@ -38,6 +39,7 @@ type c01Capture1 struct {
 	raw    bytes.Buffer
 	parsed bool
 	done   chan struct{}
+	remote string // the client's address of this connection: which case dialed it
 }
 
 func c01StartCapturePeer(t testing.TB) *c01CapturePeer {
@@ -52,7 +54,7 @@ func c01StartCapturePeer(t testing.TB) *c01CapturePeer {
 			if err != nil {
 				return
 			}
-			cp := &c01Capture1{done: make(chan struct{})}
+			cp := &c01Capture1{done: make(chan struct{}), remote: c.RemoteAddr().String()}
 			p.mu.Lock()
 			p.caps = append(p.caps, cp)
 			p.mu.Unlock()
@@ -74,6 +76,10 @@ func c01StartCapturePeer(t testing.TB) *c01CapturePeer {
 				}
 				cp.parsed = true
 				io.WriteString(c, "HTTP/1.1 200 OK\r\nConnection: close\r\nContent-Length: 0\r\n\r\n")
+				// keep reading until the client hangs up: whatever follows the request on this
+				// connection (the surplus of an over-long body reader …) is what an origin would
+				// take for the next request — it belongs to the capture
+				io.Copy(io.Discard, br)
 			}()
 		}
 	}()
@@ -86,6 +92,52 @@ func (p *c01CapturePeer) take() []*c01Capture1 {
 	c := p.caps
 	p.caps = nil
 	return c
+}
+
+// takeFor returns the captures of the connections dialed from the given local addresses, waiting
+// (up to wait) until the listener has accepted all of them: under load the accept loop may run well
+// after the client has written its request and even after RoundTrip has returned (a write that
+// fails on its own, a time-out). Captures of other connections — dialed by an earlier case and
+// accepted late — stay where they are: they are not part of this exchange.
+func (p *c01CapturePeer) takeFor(addrs []string, wait time.Duration) []*c01Capture1 {
+	want := map[string]bool{}
+	for _, a := range addrs {
+		want[a] = true
+	}
+	deadline := time.Now().Add(wait)
+	for {
+		p.mu.Lock()
+		n := 0
+		for _, c := range p.caps {
+			if want[c.remote] {
+				n++
+			}
+		}
+		if n >= len(want) || time.Now().After(deadline) {
+			var mine, others []*c01Capture1
+			for _, c := range p.caps {
+				if want[c.remote] {
+					mine = append(mine, c)
+				} else {
+					select {
+					case <-c.done: // finished and never claimed: forget it
+					default:
+						others = append(others, c)
+					}
+				}
+			}
+			p.caps = others
+			p.mu.Unlock()
+			return mine
+		}
+		p.mu.Unlock()
+		time.Sleep(2 * time.Millisecond)
+	}
+}
+
+func c01SendIsTimeout(err error) bool {
+	var ne net.Error
+	return errors.Is(err, os.ErrDeadlineExceeded) || (errors.As(err, &ne) && ne.Timeout()) || strings.Contains(err.Error(), "timeout awaiting response headers")
 }
 
 func c01SendErrKind(err error) string {
@@ -111,6 +163,8 @@ func TestVerif_C01_h1send(t *testing.T) {
 	r := s.Rand()
 	n := verifh.N(1500, 12000)
 	var dialFailed atomic.Bool // the loopback dial itself failed (ephemeral ports exhausted on a busy machine …): not a verdict on the code
+	var dialMu sync.Mutex
+	var dialed []string // local addresses of the connections dialed since the current attempt began
 	mk := func(compress bool) *Transport {
 		tr := T().EnableForceHTTP1()
 		tr.DisableCompression = !compress
@@ -120,6 +174,10 @@ func TestVerif_C01_h1send(t *testing.T) {
 			c, err := net.Dial("tcp", p.ln.Addr().String())
 			if err != nil {
 				dialFailed.Store(true)
+			} else {
+				dialMu.Lock()
+				dialed = append(dialed, c.LocalAddr().String())
+				dialMu.Unlock()
 			}
 			return c, err
 		})
@@ -186,7 +244,9 @@ func TestVerif_C01_h1send(t *testing.T) {
 		var err error
 		crashed := false
 		for attempt := 0; attempt < 6; attempt++ {
-			p.take()
+			dialMu.Lock()
+			dialed = nil
+			dialMu.Unlock()
 			dialFailed.Store(false)
 			req := build()
 			if txt, bad := verifh.Safely(func() { resp, err = tr.RoundTrip(req) }); bad {
@@ -211,7 +271,10 @@ func TestVerif_C01_h1send(t *testing.T) {
 			continue
 		}
 		tr.CloseIdleConnections()
-		caps := p.take()
+		dialMu.Lock()
+		mine := append([]string(nil), dialed...)
+		dialMu.Unlock()
+		caps := p.takeFor(mine, 5*time.Second)
 		for _, c := range caps {
 			select {
 			case <-c.done:
@@ -266,9 +329,16 @@ func TestVerif_C01_h1send(t *testing.T) {
 				chunked := bytes.Contains(bytes.ToLower(wire[:k+2]), []byte("\r\ntransfer-encoding:"))
 				if k < 0 || tc.cl > int64(len(tc.body)) || (!chunked && !bytes.Equal(wire[k+4:], tc.body[:tc.cl])) {
 					ok = false
-					human += " ORACLE: the peer accepted a request whose body is not the declared-length prefix"
+					human += fmt.Sprintf(" ORACLE: the peer accepted a request and received %d bytes behind its head: not exactly the declared-length prefix of the body (surplus bytes of the reader on the connection are read as the next request)", len(wire)-k-4)
 				}
 			}
+		case err != nil && c01SendIsTimeout(err) && (len(caps) == 0 || caps[0].raw.Len() == 0):
+			// the transport's 1.5 s response-header limit passed and the capture peer has not even
+			// been scheduled to read the request: a stalled machine, not behaviour of the library —
+			// skipped and counted, never judged (the lane fails below if this is frequent)
+			s.Count("skipped:harness-timeout")
+			t.Logf("case %d: %v with nothing captured — skipped, not judged: %s", i, err, human)
+			continue
 		case err != nil && (len(caps) == 0 || caps[0].raw.Len() == 0 || !strings.Contains(c01SendErrKind(err), "other")):
 			ans = c01SendErrKind(err)
 			s.Count(ans)
@@ -325,5 +395,8 @@ func TestVerif_C01_h1send(t *testing.T) {
 		s.Case(c01H1Line("c01send "+mode, tc, rec), ans, ok, "", sent, human+fmt.Sprintf(" -> err=%v connections=%d", err, len(caps)))
 	}
 	s.Need(t, "err:header", "err:method", "err:ctl", "err:bodylen", "sent:plain", "sent:order-mode", "sent:refused-by-reference-parser")
+	if k := s.seen["skipped:harness-timeout"]; k > 3 && k*100 > 3*n {
+		t.Errorf("%d of %d cases ended in a time-out with nothing captured: more than a stalled machine explains", k, n)
+	}
 	s.Finish()
 }
